@@ -133,17 +133,21 @@ def make_tempo(d, K, rho0, influence, P1, P2, start, dt, plan=None):
 
 
 def make_mean_field_tempo(d, K, rho0, influence, A1, B1, A2, start, dt, field0, eom, plan=None):
-    """oqupy.MeanFieldTempo (one system) as left by __init__/_prepare_backend: real
-    MeanFieldTempoBackend wired to the REAL bound methods _compute_field /
-    _compute_field_derivative; the propagators depend on the field:
-    first half step  A1[k] + field * B1[k],  second half step A2[k]."""
+    """oqupy.MeanFieldTempo as left by __init__/_prepare_backend: real MeanFieldTempoBackend
+    wired to the REAL bound methods _compute_field / _compute_field_derivative; the
+    propagators of system s depend on the field: first half step A1[s][k] + field*B1[s][k],
+    second half step A2[s][k].  One system if `influence` is a single callable, else one
+    system per list entry (rho0, influence, A1, B1, A2 are then lists over the systems)."""
     D = d * d
+    if not isinstance(influence, (list, tuple)):
+        rho0, influence, A1, B1, A2 = [rho0], [influence], [A1], [B1], [A2]
+    ns = len(influence)
     t = MeanFieldTempo.__new__(MeanFieldTempo)
     BaseAPIClass.__init__(t, None, None)
     t._dynamics = None
     t._start_time = start
     t._parameters = _Params(dt, K)
-    t._parsed_parameters_dict = {"hs_dim": [d]}
+    t._parsed_parameters_dict = {"hs_dim": [d] * ns}
 
     def field_eom(tm, states, field):
         if plan is not None:
@@ -156,14 +160,17 @@ def make_mean_field_tempo(d, K, rho0, influence, A1, B1, A2, start, dt, field0, 
     mfs.field_eom = field_eom
     t._mean_field_system = mfs
 
-    def propagators(step, field, field_derivative):
-        if plan is not None:
-            plan.tick("hamiltonian(step %d)" % step)
-        return A1[step] + field * B1[step], A2[step]
+    def mk_propagators(s):
+        def propagators(step, field, field_derivative):
+            if plan is not None:
+                plan.tick("hamiltonian(system %d, step %d)" % (s, step))
+            return A1[s][step] + field * B1[s][step], A2[s][step]
+        return propagators
     t._backend_instance = MeanFieldTempoBackend(
-        [np.array(rho0).reshape(d, d)], field0, [influence], [np.identity(d)], [propagators],
-        t._compute_field, t._compute_field_derivative, [np.ones(D)], [np.ones(D)], K, EPS_REAL,
-        config=None, degeneracy_maps_list=[None], dim_list=[d])
+        [np.array(r).reshape(d, d) for r in rho0], field0, list(influence), [np.identity(d)] * ns,
+        [mk_propagators(s) for s in range(ns)], t._compute_field, t._compute_field_derivative,
+        [np.ones(D) for _ in range(ns)], [np.ones(D) for _ in range(ns)], K, EPS_REAL,
+        config=None, degeneracy_maps_list=[None] * ns, dim_list=[d] * ns)
     return t
 
 
@@ -173,7 +180,8 @@ def dyn_lists(dyn):
 
 
 def mf_lists(dyn):
-    return list(dyn._times), list(dyn._fields), list(dyn._system_dynamics[0]._states)
+    """(times, fields, states of system 0, states of system 1, ...)"""
+    return (list(dyn._times), list(dyn._fields)) + tuple(list(sd._states) for sd in dyn._system_dynamics)
 
 
 # --------------------------------------------------------------------------
